@@ -65,6 +65,9 @@ func TestMain(m *testing.M) { ev.Main(m, rec) }
 
 const callBudget = 5 * time.Second
 
+// maxLastChunk bounds what the metrics extractor is given, as the proxy engines do.
+const maxLastChunk = 64 << 10
+
 // ---------------------------------------------------------------------------
 // code under test, built once
 
@@ -311,6 +314,11 @@ func mayCarryNegative(data []byte) bool {
 
 // judgeMetrics feeds data to the extractor as the last chunk of a response of one provider.
 func judgeMetrics(s *sut, prof string, data []byte) (vs []ev.Violation) {
+	// the proxy engines hand over the last read of the body: at most the stream buffer
+	// (sherpa keeps the last 8 KiB, the olla engine reads up to its 64 KiB default buffer)
+	if len(data) > maxLastChunk {
+		data = data[len(data)-maxLastChunk:]
+	}
 	var m *domain.ProviderMetrics
 	o := guard(func() { m = s.extractor.ExtractFromChunk(context.Background(), data, prof) })
 	rec.Eval(1)
@@ -564,10 +572,11 @@ func judge(target, prof string, data []byte) []ev.Violation {
 // the rapid case
 
 type Case struct {
-	Target string   `json:"target"`
-	Mut    string   `json:"mut"`
-	From   []string `json:"from,omitempty"` // seed names the input was derived from
-	Data   []byte   `json:"data"`
+	Target  string   `json:"target"`
+	Profile string   `json:"profile,omitempty"` // "" = every profile of the target
+	Mut     string   `json:"mut"`
+	From    []string `json:"from,omitempty"` // seed names the input was derived from
+	Data    []byte   `json:"data"`
 }
 
 func groupFor(target string) string {
@@ -643,7 +652,7 @@ func genCase(t *rapid.T) Case {
 
 func runCase(c Case) []ev.Violation {
 	rec.Class("mut=" + c.Mut)
-	vs := judge(c.Target, "", c.Data)
+	vs := judge(c.Target, c.Profile, c.Data)
 	if len(vs) == 0 {
 		rec.Sample(map[string]any{"target": c.Target, "mut": c.Mut, "from": c.From, "input": trunc(string(bytes.ToValidUTF8(c.Data, []byte("�"))), 200)})
 	}
